@@ -45,6 +45,11 @@ class _RawMessage(MaildirMessage):
 
 class Maildir(_Maildir):
 
+    #: Other sessions, threads and processes rename message files at any time
+    #: (flag changes, new/ to cur/). How often a file that has just been
+    #: looked up is looked up again when it is gone before it can be used.
+    _rename_retries = 5
+
     def _dump_message(self, message: Any, target: Any,
                       mangle_from_: bool = False) -> None:
         if isinstance(message, _RawMessage):
@@ -113,12 +118,21 @@ class Maildir(_Maildir):
 
         """
         msg = MaildirMessage()
-        subpath = self._lookup(key)
+        for _ in range(self._rename_retries):
+            subpath = self._lookup(key)
+            try:
+                mtime = os.path.getmtime(self._join(subpath))
+            except FileNotFoundError:
+                # renamed by another session since the lookup, not removed
+                continue
+            break
+        else:
+            raise KeyError(key)
         subdir, name = self._split(subpath)
         msg.set_subdir(subdir)
         if self.colon in name:
             msg.set_info(name.rsplit(self.colon, 1)[-1])
-        msg.set_date(os.path.getmtime(self._join(subpath)))
+        msg.set_date(mtime)
         return msg
 
     def update_metadata(self, key: str, msg: MaildirMessage) -> None:
@@ -394,15 +408,25 @@ class MailboxData(MailboxDataInterface[Message]):
         key = record.key
         email_id = self._get_object_id(record, 'E')
         thread_id = self._get_object_id(record, 'T')
-        existing_flags = self.maildir_flags.from_maildir(
-            maildir_msg.get_flags())
-        new_flags = mode.apply(existing_flags, flag_set)
-        new_flags_str = self.maildir_flags.to_maildir(new_flags)
-        maildir_msg.set_flags(new_flags_str)
-        try:
-            maildir.update_metadata(key, maildir_msg)
-        except (KeyError, FileNotFoundError):
-            pass
+        for _ in range(maildir._rename_retries):
+            existing_flags = self.maildir_flags.from_maildir(
+                maildir_msg.get_flags())
+            new_flags = mode.apply(existing_flags, flag_set)
+            new_flags_str = self.maildir_flags.to_maildir(new_flags)
+            maildir_msg.set_flags(new_flags_str)
+            try:
+                maildir.update_metadata(key, maildir_msg)
+            except FileNotFoundError:
+                # renamed by another session since it was read: its flags
+                # have changed, apply the operation to what they are now
+                try:
+                    maildir_msg = maildir.get_message_metadata(key)
+                except KeyError:
+                    break
+            except KeyError:
+                break
+            else:
+                break
         return Message.from_maildir(
             uid, maildir_msg, maildir, key, email_id, thread_id,
             self.maildir_flags)
